@@ -559,7 +559,9 @@ func extractJoinColumns(ident string, identRight string, expr sqlparser.Expr) ([
 		}
 	}
 
-	return removeDuplicates(columns), nil
+	// the column lists of the two sides are paired by position: a column that
+	// is used twice has to appear twice
+	return columns, nil
 }
 
 func removeDuplicates(slice []string) []string {
